@@ -222,6 +222,12 @@ def run_case(concepts, case, spec):
             call(list, lat2)
             call(len, lat2)
             COL.count('second_lattice_on_same_context')
+    if hash(gen.table_key(case)) % 5 == 1:      # the cached lattice is dropped and computed again
+        vars(ctx).pop('lattice', None)
+        lat3 = common.get_lattice(ctx)
+        if lat3 is not RAISED:
+            call(list, lat3)
+            COL.count('lattice_recomputed_after_dropping_the_cache')
     if rng.random() < .3:           # two iterations of one lattice alive at once
         it1 = iter(lat)
         next(it1, None)
